@@ -186,6 +186,116 @@ theorem call_equiv_full_is_false :
   revert this
   decide
 
+/-! ### the generated struct constructor: no switch, every split is delivered -/
+
+theorem structParse_ok : ∀ (fs : List Param) (pos : List Val) (kw : List (Nat × Val)) (slots : List (Option Val)),
+    parseItems true (fs.map (fun p => FmtItem.unit p.unit)) (fs.map (·.name)) pos kw = .ok slots →
+    slots = supplied fs pos kw := by
+  intro fs
+  induction fs with
+  | nil => intro pos kw slots h; simp [parseItems] at h; subst h; rfl
+  | cons p ps ih =>
+    intro pos kw slots h
+    simp only [List.map_cons, parseItems] at h
+    cases hoff : offered p.name pos kw with
+    | none =>
+      rw [hoff] at h
+      simp only [if_true] at h
+      cases hrec : parseItems true (ps.map (fun p => FmtItem.unit p.unit)) (ps.map (·.name)) pos.tail kw with
+      | error e => rw [hrec] at h; cases h
+      | ok r =>
+        rw [hrec] at h
+        injection h with h
+        subst h
+        simp [supplied, hoff, ih pos.tail kw r hrec]
+    | some v =>
+      rw [hoff] at h
+      by_cases hok : p.unit.ok v = true
+      · simp only [hok, if_true] at h
+        cases hrec : parseItems true (ps.map (fun p => FmtItem.unit p.unit)) (ps.map (·.name)) pos.tail kw with
+        | error e => rw [hrec] at h; cases h
+        | ok r =>
+          rw [hrec] at h
+          injection h with h
+          subst h
+          simp [supplied, hoff, ih pos.tail kw r hrec]
+      · simp [hok] at h
+
+/-- **Struct constructor, full call equivalence**: for every field list and *every* accepted positional /
+keyword split (keyword skipping included) each field receives the supplied value, an unsupplied field the
+initial value of its variable.  There is no argument-count switch here, hence no prefix hypothesis. -/
+theorem structCtor_call_equiv (fs : List Param) (pos : List Val) (kw : List (Nat × Val)) (slots : List (Option Val))
+    (hacc : parseArgs (structFmt fs) (fs.map (·.name)) pos kw = .ok slots) :
+    structCtor fs pos (some kw) = .ok ((supplied fs pos kw).map structField) := by
+  have hitems : slots = supplied fs pos kw := by
+    unfold parseArgs at hacc
+    split at hacc
+    · cases hacc
+    · split at hacc
+      · cases hacc
+      · rename_i s hs
+        split at hacc
+        · injection hacc with hacc; subst hacc
+          cases fs with
+          | nil => simp [structFmt, parseItems] at hs; subst hs; rfl
+          | cons p ps =>
+            simp only [structFmt, parseItems] at hs
+            exact structParse_ok (p :: ps) pos kw s hs
+        · cases hacc
+  unfold structCtor
+  simp [hacc, hitems]
+
+/-- non-vacuity: `Pt(z=3)` for `struct Pt { int x; int y; int z; }` reuses the fields of `exF`. -/
+example : parseArgs (structFmt exF) (exF.map (·.name)) [] [(3, iv 3)] = .ok [none, none, some (iv 3)] ∧
+    structCtor exF [] (some [(3, iv 3)]) = .ok [.dflt, .dflt, .val (iv 3)] := by decide
+
+/-- the struct constructor never ends in `SystemError`. -/
+theorem structCtor_never_systemError (fs : List Param) (pos : List Val) (kw : Option (List (Nat × Val))) :
+    structCtor fs pos kw ≠ .exc .systemError := by
+  unfold structCtor
+  cases hparse : parseArgs (structFmt fs) (fs.map (·.name)) pos (kw.getD []) with
+  | ok slots => simp
+  | error e =>
+    simp only []
+    intro hh
+    injection hh with hh
+    subst hh
+    unfold parseArgs at hparse
+    split at hparse
+    · cases hparse
+    · split at hparse
+      · rename_i e' he
+        injection hparse with hparse
+        subst hparse
+        -- one unit per field name: the format cannot outrun the keyword list
+        have key : ∀ (fs : List Param) (pos : List Val) (kw : List (Nat × Val)),
+            parseItems true (fs.map (fun p => FmtItem.unit p.unit)) (fs.map (·.name)) pos kw ≠ .error .systemError := by
+          intro fs
+          induction fs with
+          | nil => intro pos kw; simp [parseItems]
+          | cons p ps ih =>
+            intro pos kw
+            simp only [List.map_cons, parseItems]
+            cases offered p.name pos kw with
+            | none =>
+              simp only [if_true]
+              cases hrec : parseItems true (ps.map (fun p => FmtItem.unit p.unit)) (ps.map (·.name)) pos.tail kw with
+              | error e => intro hh; injection hh with hh; exact ih pos.tail kw (by rw [hrec, hh])
+              | ok r => simp
+            | some v =>
+              by_cases hok : p.unit.ok v = true
+              · simp only [hok, if_true]
+                cases hrec : parseItems true (ps.map (fun p => FmtItem.unit p.unit)) (ps.map (·.name)) pos.tail kw with
+                | error e => intro hh; injection hh with hh; exact ih pos.tail kw (by rw [hrec, hh])
+                | ok r => simp
+              · simp [hok]
+        cases fs with
+        | nil => simp [structFmt, parseItems] at he
+        | cons p ps =>
+          simp only [structFmt, parseItems] at he
+          exact key (p :: ps) pos (kw.getD []) he
+      · split at hparse <;> cases hparse
+
 /-! ## (2) errors are TypeError / ValueError, never SystemError -/
 
 /-- the generated format has one unit per keyword-list entry and `SH_nargs` is computed from `kwds`:
